@@ -40,20 +40,20 @@ type monitor struct {
 	labels  map[string]bool
 	opIndex int
 
-	userEdited   map[string]bool           // Job UID -> spec/metadata edited or deletion requested by a user
-	userEditSeq  map[string]int            // Job UID -> ledger sequence of the latest user edit
-	finishedSeq  map[string]int            // Job UID -> ledger sequence at which the current finished result was recorded
-	podCreates   map[string][]podCreate    // jobUID|hash -> creations in order
-	everTasks    map[string]map[string]bool // Job UID -> task names ever listed in status
-	rejectedJobs map[string]bool           // Job UID -> carries the admission-error annotation
-	jobCtlWrote  map[string]bool           // Job UID -> the job controller has written its status at least once
-	startedAt    map[string]time.Time
+	userEdited      map[string]bool            // Job UID -> spec/metadata edited or deletion requested by a user
+	userEditSeq     map[string]int             // Job UID -> ledger sequence of the latest user edit
+	finishedSeq     map[string]int             // Job UID -> ledger sequence at which the current finished result was recorded
+	podCreates      map[string][]podCreate     // jobUID|hash -> creations in order
+	everTasks       map[string]map[string]bool // Job UID -> task names ever listed in status
+	rejectedJobs    map[string]bool            // Job UID -> carries the admission-error annotation
+	jobCtlWrote     map[string]bool            // Job UID -> the job controller has written its status at least once
+	startedAt       map[string]time.Time
 	deadlineCrossed bool
 	// observed[podKey#uid]: the Pod was Succeeded in the controller's Pod cache at
 	// the start of a job-controller sync of its own Job, i.e. the controller
 	// could know about the success. A success that vanished unobserved is a lost
 	// (unsuccessful) attempt, as the API documents.
-	observed map[string]bool
+	observed map[string]int    // Pod key#uid -> process incarnation that saw it Succeeded
 	foreign  map[string]string // planted Pod key -> name of the Job whose task name it occupies
 
 	seenRestarts int
@@ -74,9 +74,48 @@ func (m *monitor) beforeJobSync(key string) {
 	for _, o := range m.r.w.Ctrl.Informer(sim.ResPods).GetIndexer().List() {
 		p := o.(*corev1.Pod)
 		if ref := metav1.GetControllerOf(p); ref != nil && ref.UID == cj.UID && p.Status.Phase == corev1.PodSucceeded {
-			m.observed[keyOf(p)+"#"+string(p.UID)] = true
+			m.observed[keyOf(p)+"#"+string(p.UID)] = m.r.w.Restarts + 1
 		}
 	}
+}
+
+// successKnown: the success of a Pod (key "ns/name#uid") is something the
+// controller can know when it decides: the result is persisted in the Job's
+// status, or the Pod is Succeeded in the controller's Pod cache right now, or it
+// is recorded, never seen finished, missing from the cache and Succeeded in the
+// API server (getTaskForRef looks such a task up live). A success seen only in
+// a sync whose status write was lost (crash, conflict), with the Pod gone
+// before the next sync, is a lost attempt, as the API documents for
+// DeletedFinalStateUnknown: the reconciler keeps no memory between syncs.
+func (m *monitor) successKnown(k string) bool {
+	i := strings.IndexByte(k, '#')
+	if i < 0 {
+		return false
+	}
+	key, uid := k[:i], k[i+1:]
+	ns, name := splitKey(key)
+	var ref *execution.TaskRef
+	for _, j := range m.r.w.API.Jobs() {
+		if j.Namespace != ns {
+			continue
+		}
+		if r := findTaskRef(j, name); r != nil {
+			ref = r
+			if r.Status.Result == execution.TaskSucceeded {
+				return true
+			}
+		}
+	}
+	if cp := m.ctrlCachedPod(key); cp != nil {
+		return string(cp.UID) == uid && cp.Status.Phase == corev1.PodSucceeded
+	}
+	if ref != nil && ref.FinishTimestamp == nil {
+		if lp := m.r.w.API.Get(sim.ResPods, key); lp != nil {
+			p := lp.(*corev1.Pod)
+			return string(p.UID) == uid && p.Status.Phase == corev1.PodSucceeded
+		}
+	}
+	return false
 }
 
 type podCreate struct {
@@ -88,7 +127,7 @@ type podCreate struct {
 
 func newMonitor(r *e2run) *monitor {
 	return &monitor{r: r, labels: map[string]bool{}, userEdited: map[string]bool{}, userEditSeq: map[string]int{}, finishedSeq: map[string]int{}, podCreates: map[string][]podCreate{},
-		everTasks: map[string]map[string]bool{}, rejectedJobs: map[string]bool{}, jobCtlWrote: map[string]bool{}, startedAt: map[string]time.Time{}, observed: map[string]bool{}, foreign: map[string]string{}}
+		everTasks: map[string]map[string]bool{}, rejectedJobs: map[string]bool{}, jobCtlWrote: map[string]bool{}, startedAt: map[string]time.Time{}, observed: map[string]int{}, foreign: map[string]string{}}
 }
 
 func (m *monitor) on(p string) bool { return m.props == nil || m.props[p] }
@@ -638,7 +677,7 @@ func (m *monitor) onPodEntry(e *sim.Entry) {
 				continue
 			}
 			if t.Outcome == sim.OutSuccess {
-				if m.observed[pc.key+"#"+pc.uid] {
+				if m.successKnown(pc.key + "#" + pc.uid) {
 					m.fail("C08", "created-after-success", "Pod %s created for an index whose task %s succeeded (and the controller had seen it)", p.Name, pc.key)
 				} else {
 					m.label("success-vanished-unobserved")
@@ -761,16 +800,26 @@ func (m *monitor) knowableFinished(job *execution.Job) *execution.JobConditionFi
 	if cj == nil || m.r.w.Ctrl == nil {
 		return nil
 	}
-	for _, p := range m.r.w.API.Pods() {
-		if ref := metav1.GetControllerOf(p); ref != nil && ref.UID == job.UID && podAlive(p) {
-			return nil
-		}
-	}
+	// Only Pods the controller can know about count (cache, or live lookup of a
+	// recorded task): a Pod it created whose status write failed and whose creation
+	// event has not reached its cache yet is unknown to it; if the Job is killed and
+	// past its TTL in that window, the orphan is left to ownerReference GC.
 	var ts []jobtasks.Task
 	for _, o := range m.r.w.Ctrl.Informer(sim.ResPods).GetIndexer().List() {
 		cp := o.(*corev1.Pod)
 		if ref := metav1.GetControllerOf(cp); ref != nil && ref.UID == cj.UID {
 			ts = append(ts, podtaskexecutor.NewPodTask(cp, nil)) // recorded or adoptable in this very sync
+		}
+	}
+	// A recorded task that is missing from the Pod cache and was never seen finished
+	// is looked up from the API server by the reconciler (getTaskForRef).
+	for _, ref := range cj.Status.Tasks {
+		if ref.FinishTimestamp == nil && m.ctrlCachedPod(cj.Namespace+"/"+ref.Name) == nil {
+			if lp := m.r.w.API.Get(sim.ResPods, cj.Namespace+"/"+ref.Name); lp != nil {
+				if c := metav1.GetControllerOf(lp.(*corev1.Pod)); c != nil && c.UID == cj.UID {
+					ts = append(ts, podtaskexecutor.NewPodTask(lp.(*corev1.Pod), nil))
+				}
+			}
 		}
 	}
 	upd := jobutil.UpdateJobTaskRefs(cj, ts)
@@ -790,7 +839,13 @@ func (m *monitor) strategyDecidedKnowable(job *execution.Job) bool {
 	}
 	refs := append([]execution.TaskRef(nil), cj.Status.Tasks...)
 	for i := range refs {
-		if cp := m.ctrlCachedPod(cj.Namespace + "/" + refs[i].Name); cp != nil {
+		cp := m.ctrlCachedPod(cj.Namespace + "/" + refs[i].Name)
+		if cp == nil && refs[i].FinishTimestamp == nil { // live lookup by getTaskForRef
+			if lp := m.r.w.API.Get(sim.ResPods, cj.Namespace+"/"+refs[i].Name); lp != nil {
+				cp = lp.(*corev1.Pod)
+			}
+		}
+		if cp != nil {
 			if cp.Status.Phase == corev1.PodSucceeded {
 				refs[i].Status.Result = execution.TaskSucceeded
 				if refs[i].FinishTimestamp == nil {
@@ -1288,7 +1343,7 @@ func (m *monitor) tally(hashes []string, truth map[string][]*sim.PodTruth, max i
 	for _, h := range hashes {
 		ok := false
 		for _, t := range truth[h] {
-			if t.Outcome == sim.OutSuccess && (!observedOnly || m.observed[t.Key]) {
+			if t.Outcome == sim.OutSuccess && (!observedOnly || m.successKnown(t.Key)) {
 				ok = true
 			}
 		}
